@@ -74,7 +74,9 @@ func Seeds() [][]string {
 }
 
 var nasty = []string{"", "0", "-1", "1", "2", "9223372036854775807", "9223372036854775808", "-9223372036854775809", "1e400", "nan", "inf", "-inf", "(1", "[a", "(", "[", "-", "+", "abc",
-	"\x00", "\xff", NS + ":", ":", NS + ":t", NS + ":t:", "nosuchns:t:k", "WITHSCORES", "Limit", "COUNT", "match", "*", "[", `{"a":`, `"`, "$.a[", "a.b..c", "-0", "4294967296", "-4294967297", "0x10", " 1", "1 "}
+	"\x00", "\xff", NS + ":", ":", NS + ":t", NS + ":t:", "nosuchns:t:k", "WITHSCORES", "Limit", "COUNT", "match", "*", "[", `{"a":`, `"`, "$.a[", "a.b..c", "-0", "4294967296", "-4294967297", "0x10", " 1", "1 ",
+	// dictionary: the error text the apply path treats as fatal (isUnrecoveryError); arguments are echoed into error messages
+	"IO error: No space left on device", "1 IO error: No space left on device"}
 
 func bigValues() []string {
 	// just over MaxKeySize / MaxSubKeyLen (10240), a 64 KiB value, an over-long table name
